@@ -50,7 +50,7 @@ ASSUMPTIONS = [
     'an empty parent list means "inherit root" (the documented default)',
 ]
 MIN = {
-    'quick': {'mro_compared': 500000, 'hier_multi_inherit': 80000,
+    'quick': {'mro_compared': 300000, 'hier_multi_inherit': 50000,
               'hier_exhaustive': 3906,
               'ns_rejected_both': 50000, 'ns_order_sensitive': 10000,
               'cfg_hier_checked': 500, 'cfg_rejected_both': 30,
@@ -64,8 +64,8 @@ MIN = {
 
 NCASES = {'quick': 64, 'thorough': 512}
 EXHAUSTIVE_K = {'quick': 4, 'thorough': 5}      # non-root namespaces
-RANDOM_PER_CASE = {'quick': 400, 'thorough': 1500}
-SLICE_PER_CASE = {'quick': 1500, 'thorough': 3000}   # next size up
+RANDOM_PER_CASE = {'quick': 250, 'thorough': 1500}
+SLICE_PER_CASE = {'quick': 800, 'thorough': 3000}   # next size up
 CFG_PER_CASE = {'quick': 10, 'thorough': 8}
 CASE_TIMEOUT = 600
 
